@@ -248,6 +248,37 @@ def m_abs(ex, st, callee, args):
     raise Inconclusive(callee)
 
 
+_bits_re = re.compile(r"^core::num::<impl (%s)>::(trailing_zeros|leading_zeros|count_ones|count_zeros|is_power_of_two)$" % INT)
+
+
+def m_bits(ex, st, callee, args):
+    """bit-counting methods of the integer types (contract: std documentation), as If-chains over the bits"""
+    m = _bits_re.match(callee)
+    ty, fn = m.group(1), m.group(2)
+    bits, signed = INT_TYPES[ty]
+    a = scalar(ex, st, args[0])
+    bit = lambda i: z3.Extract(i, i, a.e) == z3.BitVecVal(1, 1)
+    u32 = lambda n: z3.BitVecVal(n, 32)
+    if fn == "trailing_zeros":
+        r = u32(bits)
+        for i in range(bits - 1, -1, -1):
+            r = z3.If(bit(i), u32(i), r)
+        return [(None, Sc("u32", r))]
+    if fn == "leading_zeros":
+        r = u32(bits)
+        for i in range(bits):
+            r = z3.If(bit(i), u32(bits - 1 - i), r)
+        return [(None, Sc("u32", r))]
+    if fn in ("count_ones", "count_zeros"):
+        r = u32(0)
+        for i in range(bits):
+            r = r + z3.If(bit(i) if fn == "count_ones" else z3.Not(bit(i)), u32(1), u32(0))
+        return [(None, Sc("u32", r))]
+    if fn == "is_power_of_two" and not signed:
+        return [(None, Sc("bool", z3.And(a.e != 0, (a.e & (a.e - 1)) == 0)))]
+    raise Inconclusive(callee)
+
+
 # ------------------------------------------------------------------ conversions
 _tryinto_re = re.compile(r"^<(%s) as (TryInto|TryFrom)<(%s)>>::(try_into|try_from)$" % (INT, INT))
 
@@ -957,6 +988,7 @@ def base_models():
     m.add(_cmp_re.pattern, m_cmp)
     m.add(_checked_re.pattern, m_checked)
     m.add(_abs_re.pattern, m_abs)
+    m.add(_bits_re.pattern, m_bits)
     m.add(_euclid_re.pattern, m_euclid)
     m.add(_minmax_re.pattern, m_minmax)
     m.add(_tryinto_re.pattern, m_tryinto)
